@@ -14,7 +14,7 @@ import z3
 from ..core import Ctx, Inconclusive, SBool, SInt, SReal, Unsupported, explore, from_placeholder, rebind, s_int, term
 from ..tokfile import SB, StructShim, TokFile, TokPath, differs
 
-STRS = ["", "J0", "B1937+21"]
+STRS = ["", "J0", "B1937+21", "pad  ", " lead"]
 
 
 def enc_str(s):
@@ -63,7 +63,8 @@ def build():
 
 
 def roundtrip_work(P, item):
-    _, keys = item
+    keys = item[1]
+    sshift = item[2] if len(item) > 2 else 0
     st = build()
     hk = st["sigproc"].header_keys
     label = "roundtrip[" + ",".join(keys) + "]"
@@ -73,7 +74,7 @@ def roundtrip_work(P, item):
         for i, k in enumerate(keys):
             fmt = hk[k]
             if fmt == "str":
-                entries.append((k, fmt, STRS[(i + len(k)) % len(STRS)]))
+                entries.append((k, fmt, STRS[(i + len(k) + sshift) % len(STRS)]))
             else:
                 v, c = sym_value(k, fmt, i)
                 cons += c
@@ -129,10 +130,10 @@ def roundtrip_work(P, item):
             if ctx.check(c) == z3.unsat:
                 P.obligation(f"{label}/{n_}", "holds")
             else:
-                params = dict(kind="roundtrip", keys=keys)
+                params = dict(kind="roundtrip", keys=keys, sshift=sshift)
                 src = ("import sys, json\nfrom symx.concrete import c05\n"
                        f"sys.exit(c05.main(json.loads({json.dumps(json.dumps(params))})))\n")
-                P.violation(f"roundtrip-{'-'.join(keys)}-{n_[:20]}".replace(" ", "_").replace("(", "").replace(")", "").replace("=", ""), f"{label}: {n_}", src, model=params)
+                P.violation(f"roundtrip-{'-'.join(keys)}-{sshift}-{n_[:20]}".replace(" ", "_").replace("(", "").replace(")", "").replace("=", ""), f"{label}: {n_}", src, model=params)
                 break
         Ctx.cur = None
     try:
@@ -378,6 +379,9 @@ def run(R):
     quick = R.tier == "quick"
     keys = list(sigproc.header_keys)
     items = [("roundtrip", [k]) for k in keys]
+    for k in keys:          # every string of the alphabet (incl. padded ones, as edit_header writes them) for the string keys
+        if sigproc.header_keys[k] == "str":
+            items += [("roundtrip", [k], sh) for sh in range(1, len(STRS))]
     pairs = list(itertools.permutations(keys, 2))
     if quick:
         pairs = pairs[::7]
